@@ -634,6 +634,26 @@ void ExpressionBuilder::expr_dot(const char* id)
     fragments[0] = expr;
 }
 
+void ExpressionBuilder::quantifier_closed()
+{
+    // forget the quantifiers whose scope is gone (closed here, or by restoreFrames() after a failed parse)
+    while (!openQuantifiers.empty() && openQuantifiers.back().first > frames.size())
+        openQuantifiers.pop_back();
+}
+
+void ExpressionBuilder::expr_quantifier_abandon()
+{
+    quantifier_closed();
+    if (openQuantifiers.empty())
+        return;
+    const auto [depth, name] = openQuantifiers.back();
+    while (frames.size() >= depth)  // the quantifier's scope and whatever was left open inside it
+        popFrame();
+    if (!name.empty())
+        pop_dynamic_frame_of(name);
+    quantifier_closed();
+}
+
 void ExpressionBuilder::expr_forall_begin(const char* name)
 {
     type_t type = typeFragments[0];
@@ -644,6 +664,7 @@ void ExpressionBuilder::expr_forall_begin(const char* name)
     }
 
     push_frame(frame_t::create(frames.top()));
+    openQuantifiers.emplace_back(frames.size(), std::string{});
     symbol_t symbol = frames.top().add_symbol(name, type, position);
 
     if (!type.is_integer() && !type.is_scalar()) {
@@ -661,6 +682,7 @@ void ExpressionBuilder::expr_forall_end(const char* name)
     fragments[0] = expression_t::create_binary(FORALL, expression_t::create_identifier(frames.top()[0], position),
                                                fragments[0], position);
     popFrame();
+    quantifier_closed();
 }
 
 void ExpressionBuilder::expr_exists_begin(const char* name) { expr_forall_begin(name); }
@@ -675,6 +697,7 @@ void ExpressionBuilder::expr_exists_end(const char* name)
     fragments[0] = expression_t::create_binary(EXISTS, expression_t::create_identifier(frames.top()[0], position),
                                                fragments[0], position);
     popFrame();
+    quantifier_closed();
 }
 
 void ExpressionBuilder::expr_sum_begin(const char* name) { expr_forall_begin(name); }
@@ -689,6 +712,7 @@ void ExpressionBuilder::expr_sum_end(const char* name)
     fragments[0] = expression_t::create_binary(SUM, expression_t::create_identifier(frames.top()[0], position),
                                                fragments[0], position);
     popFrame();
+    quantifier_closed();
 }
 
 void ExpressionBuilder::expr_proba_qualitative(Constants::kind_t pathType, Constants::kind_t comp, double probBound)
@@ -986,6 +1010,7 @@ void ExpressionBuilder::expr_numof()
 void ExpressionBuilder::expr_forall_dynamic_begin(const char* name, const char* temp)
 {
     push_frame(frame_t::create(frames.top()));
+    openQuantifiers.emplace_back(frames.size(), name);
     frames.top().add_symbol(name, type_t::create_primitive(PROCESS_VAR, position), position);
     template_t* templ = document.find_dynamic_template(temp);
     if (!templ)
@@ -1015,10 +1040,12 @@ void ExpressionBuilder::expr_forall_dynamic_end(const char* name)
                                              type_t::create_primitive(Constants::BOOL, position)));
     popFrame();
     pop_dynamic_frame_of(name);
+    quantifier_closed();
 }
 void ExpressionBuilder::expr_exists_dynamic_begin(const char* name, const char* temp)
 {
     push_frame(frame_t::create(frames.top()));
+    openQuantifiers.emplace_back(frames.size(), name);
     frames.top().add_symbol(name, type_t::create_primitive(Constants::PROCESS_VAR, position), position);
     template_t* templ = document.find_dynamic_template(temp);
     if (!templ) {
@@ -1046,11 +1073,13 @@ void ExpressionBuilder::expr_exists_dynamic_end(const char* name)
                                              type_t::create_primitive(Constants::BOOL, position)));
     popFrame();
     pop_dynamic_frame_of(name);
+    quantifier_closed();
 }
 
 void ExpressionBuilder::expr_sum_dynamic_begin(const char* name, const char* temp)
 {
     push_frame(frame_t::create(frames.top()));
+    openQuantifiers.emplace_back(frames.size(), name);
     frames.top().add_symbol(name, type_t::create_primitive(Constants::PROCESS_VAR, position), position);
     template_t* templ = document.find_dynamic_template(temp);
     if (!templ) {
@@ -1070,11 +1099,13 @@ void ExpressionBuilder::expr_sum_dynamic_end(const char* name)
     fragments.push(expression_t::create_nary(SUM_DYNAMIC, std::move(exprs), position, expr.get_type()));
     popFrame();
     pop_dynamic_frame_of(name);
+    quantifier_closed();
 }
 
 void ExpressionBuilder::expr_foreach_dynamic_begin(const char* name, const char* temp)
 {
     push_frame(frame_t::create(frames.top()));
+    openQuantifiers.emplace_back(frames.size(), name);
     frames.top().add_symbol(name, type_t::create_primitive(Constants::PROCESS_VAR, position), position);
     if (!document.find_dynamic_template(temp)) {
         throw UnknownDynamicTemplateError(temp);
@@ -1094,6 +1125,7 @@ void ExpressionBuilder::expr_foreach_dynamic_end(const char* name)
                                              type_t::create_primitive(Constants::INT, position)));
     popFrame();
     pop_dynamic_frame_of(name);
+    quantifier_closed();
 }
 
 void ExpressionBuilder::push_dynamic_frame_of(template_t* t, string name)
